@@ -230,6 +230,9 @@ func occClass(f *SFile, o *Occ) string {
 				walk(s.Body)
 				if s.Names[0].Val == name && !inSpan(s.Body) && found == "" {
 					found = "in-bounds-of-same-named-numeric-for"
+					if !inSpan(s.A) {
+						found = "in-bounds-of-same-named-numeric-for:limit-or-step"
+					}
 				}
 			case SForIn:
 				for _, e := range s.List2 {
@@ -433,4 +436,87 @@ func inForHeaderFuncLit(chunk *Node, off int) bool {
 		}
 	})
 	return hit
+}
+
+func unparenNode(e *Node) *Node {
+	for e != nil && e.K == EParen && e.A != nil {
+		e = e.A
+	}
+	return e
+}
+
+// occTriggerSet returns every resolver trigger class whose construct encloses the occurrence (occClass reports only
+// the innermost one): an occurrence can sit in the limit of a same-named numeric for that itself lies inside a function
+// literal in the initialiser of a same-named local.
+func occTriggerSet(f *SFile, o *Occ) map[string]bool {
+	name := o.Tok.Val
+	set := map[string]bool{}
+	in := func(n *Node) bool {
+		return n != nil && n.First != nil && n.Last != nil && o.Tok.Off >= n.First.Off && o.Tok.End <= n.Last.End
+	}
+	hasFn := func(e *Node) bool {
+		hit := false
+		visitNodes(e, func(x *Node) {
+			if x.K == EFunction && in(x) {
+				hit = true
+			}
+		})
+		return hit
+	}
+	visitNodes(f.Parse.Chunk, func(s *Node) {
+		if !in(s) {
+			return
+		}
+		switch s.K {
+		case SLocal:
+			for _, n := range s.Names {
+				if n.Val == name {
+					for _, e := range s.List2 {
+						if in(e) {
+							set["in-initialiser-of-same-named-local"] = true
+						}
+					}
+				}
+			}
+		case SForNum:
+			for i, e := range []*Node{s.A, s.B, s.C} {
+				if in(e) {
+					if s.Names[0].Val == name {
+						if i == 0 {
+							set["in-bounds-of-same-named-numeric-for"] = true
+						} else {
+							set["in-bounds-of-same-named-numeric-for:limit-or-step"] = true
+						}
+					}
+					if hasFn(e) {
+						set["within-function-literal-in-for-header"] = true
+					}
+				}
+			}
+		case SForIn:
+			for _, e := range s.List2 {
+				if in(e) {
+					for _, n := range s.Names {
+						if n.Val == name {
+							set["in-explist-of-same-named-generic-for"] = true
+						}
+					}
+					if hasFn(e) {
+						set["within-function-literal-in-for-header"] = true
+					}
+				}
+			}
+		case SAssign:
+			for _, e := range s.List2 {
+				if in(e) {
+					for _, v := range s.List {
+						if v.K == EName && v.Tok.Val == name {
+							set["in-rhs-of-assignment-to-same-name"] = true
+						}
+					}
+				}
+			}
+		}
+	})
+	return set
 }
